@@ -101,6 +101,12 @@
 //!              translated fns (`RustSem.filterM`); `match map.get_mut(&k) { Some(x) => .., None => .. }`; HashMap
 //!              `iter_mut()` / `values_mut()` with `continue` under HASHMAP_VALUES_MUT_OK; read-only HashMap `iter()` chains
 //!              under HASHMAP_ITER_ORDER_OK (order-independent, or claimed up to permutation)
+//!   stage 8    (netcode codec) `renetcode/src/crypto.rs` as an EXTERNAL interface: its four functions are builtins over the
+//!              abstract instance parameter `[RustSem.Aead]` (files of the groups that use them, transitively, declare
+//!              `variable [RustSem.Aead]`); `&mut [u8]` / array parameters; `&mut buf[a..b]` arguments (`Place::Range`);
+//!              writing `io::Cursor::new(&mut buf)` with the buffer following the cursor, reader / writer chosen by the
+//!              callee's parameter type or by lookahead; `position()` / `set_position()`; `Option<&mut T>` parameters
+//!              (`Place::OptSome` / `OptWrap`); nested `&mut` in parameter / return types rejected
 //!   not supported: `loop`, valued `break`, closures other than the pure `map` / `or_insert_with` ones, generics, traits, signed integers, floats,
 //!              references stored in data, `ref mut`, `&mut` parameters other than `self`, unsigned integers and the
 //!              octets / io cursors.
@@ -217,6 +223,28 @@ fn main() {
     }
     let mut any_failed = false;
     let names = manifest::group_names();
+    // groups whose definitions (transitively) call the external AEAD of `renetcode/src/crypto.rs`: their files declare the
+    // instance variable `[RustSem.Aead]` (Lean adds it to exactly the definitions that use it)
+    let mut aead: std::collections::BTreeSet<String> = std::collections::BTreeSet::new();
+    loop {
+        let mut changed = false;
+        for gname in &names {
+            if aead.contains(gname) {
+                continue;
+            }
+            if let Some(Ok((body, imports))) = result.groups.get(gname) {
+                let direct = body.contains("RustSem.encrypt_in_place") || body.contains("RustSem.dencrypted_in_place");
+                let via = imports.iter().any(|im| im.rsplit('.').next().map(|g| aead.contains(g)).unwrap_or(false));
+                if direct || via {
+                    aead.insert(gname.clone());
+                    changed = true;
+                }
+            }
+        }
+        if !changed {
+            break;
+        }
+    }
     for gname in &names {
         let path = format!("{}/{}.lean", dir, gname);
         let text = match result.groups.get(gname) {
@@ -232,6 +260,10 @@ fn main() {
                 t.push_str("namespace RenetVerif.Src\n");
                 t.push_str("open RenetVerif\n");
                 t.push_str("open RenetVerif.RustSem (Exec)\n");
+                if aead.contains(gname) {
+                    t.push_str("-- the AEAD of renetcode/src/crypto.rs is a parameter (see the header of Base/RustSem.lean)\n");
+                    t.push_str("variable [RustSem.Aead]\n");
+                }
                 t.push_str(body);
                 t.push_str("\nend RenetVerif.Src\n");
                 t
